@@ -1,8 +1,12 @@
 //! lvh — the verification harness binary. Sub commands read NDJSON on stdin (or a file) and
 //! write NDJSON on stdout, one record per case; `BEGIN <id>` markers go to stderr-free stdout
 //! lines prefixed with '#' so that the python driver can attribute a crash to a case.
+mod alloc;
 mod io;
 mod sym;
+
+#[global_allocator]
+static GLOBAL: alloc::Ledger = alloc::Ledger;
 
 use laythe_core::verif;
 use laythe_vm::vm::{Vm, VmExit};
@@ -76,9 +80,17 @@ fn run_case(case: &J) -> J {
     .unwrap_or_default();
 
   PANIC_MSG.with(|p| *p.borrow_mut() = None);
+  let early = case["early"].as_bool().unwrap_or(false);
+  alloc::reset();
   let result = panic::catch_unwind(panic::AssertUnwindSafe(|| {
+    let mut cfg = Some(cfg);
+    if early {
+      verif::start(cfg.take().unwrap());
+    }
     let mut vm = Vm::new(hio);
-    verif::start(cfg);
+    if let Some(cfg) = cfg.take() {
+      verif::start(cfg);
+    }
     let r = if is_repl {
       vm.repl()
     } else {
@@ -99,6 +111,7 @@ fn run_case(case: &J) -> J {
   let stderr = String::from_utf8_lossy(&s.stderr).to_string();
   match result {
     Ok(((code, exit), events, dropped, post)) => {
+      let (mism, first_alloc, first_free) = alloc::report();
       let status = match exit {
         VmExit::Ok => "ok",
         VmExit::RuntimeError => "runtime_error",
@@ -109,7 +122,8 @@ fn run_case(case: &J) -> J {
         .map(|e| serde_json::from_str(e).unwrap_or_else(|_| json!({"ev":"bad","raw":e})))
         .collect();
       json!({"id": case["id"], "status": status, "code": code, "stdout": stdout, "stderr": stderr,
-             "events": events, "dropped": dropped, "post": post, "reads": s.reads})
+             "events": events, "dropped": dropped, "post": post, "reads": s.reads,
+             "layout_mismatches": mism, "first_mismatch": [first_alloc, first_free]})
     },
     Err(_) => {
       let (events, dropped) = verif::stop();
